@@ -172,4 +172,184 @@ theorem centerTo_ok {ps : Pairs} {seg : Nat → Nat → V6} {P : Nat → V6} (hP
     | keyError => rw [hb] at h; simp only [hp] at h; cases h
     | loop => rw [hb] at h; simp only [hp] at h; cases h
 
+/-! ## Frames attached to orbits (`orbit2frame`) -/
+
+/-- `JplPropagator(obj, frame of cen).propagate` answers only for two bodies that a segment joins -/
+theorem propagate_ok_linked {ps : Pairs} {seg : Nat → Nat → V6} {o c : Nat} {v : V6}
+    (h : propagate ps seg o c = .ok v) : Linked ps o c := by
+  unfold propagate at h
+  by_cases h1 : ps.contains (o, c) = true
+  · exact Or.inr (contains_iff.mp h1)
+  · rw [if_neg h1] at h
+    by_cases h2 : ps.contains (c, o) = true
+    · exact Or.inl (contains_iff.mp h2)
+    · rw [if_neg h2] at h; cases h
+
+/-- **Either direction of a segment, position and velocity**: a propagator built for the two ends of a segment
+returns the first body relative to the second one in SI units, whichever way round the file stores the segment -/
+theorem propagate_linked {ps : Pairs} {seg : Nat → Nat → V6} {P : Nat → V6} (hP : Consistent ps seg P)
+    {o c : Nat} (h : Linked ps o c) : propagate ps seg o c = .ok (si (P o - P c)) := by
+  unfold propagate
+  by_cases h1 : (o, c) ∈ ps
+  · rw [if_pos (contains_iff.mpr h1), toSI_neg_one, hP o c h1]; congr 2; abel
+  · have h1' : ¬ (ps.contains (o, c) = true) := fun hh => h1 (contains_iff.mp hh)
+    have h2 : (c, o) ∈ ps := h.resolve_right h1
+    rw [if_neg h1', if_pos (contains_iff.mpr h2), toSI_one, hP c o h2]
+
+/-- link relation of the centre graph once frames have been attached to orbits -/
+def LinkedA (ps : Pairs) (att : List Att) (a b : Nat) : Prop :=
+  Linked ps a b ∨ (∃ t ∈ att, t.x = a ∧ t.link = b) ∨ (∃ t ∈ att, t.x = b ∧ t.link = a)
+
+/-- every attached frame comes from a propagator for the two ends of a segment, and the position given to its
+centre is the one its orbit has relative to the centre it hangs below (for an orbit that is still expressed in the
+frame of its propagator, `link = cen`, this says: the new centre is the body of the orbit) -/
+def AttOK (ps : Pairs) (att : List Att) (P : Nat → V6) : Prop :=
+  ∀ t ∈ att, Linked ps t.obj t.cen ∧ P t.x - P t.link = P t.obj - P t.cen
+
+theorem attFind_some {att : List Att} {u v : Nat} {t : Att} (h : attFind att u v = some t) :
+    t ∈ att ∧ t.x = u ∧ t.link = v := by
+  unfold attFind at h
+  have hm := List.mem_of_find?_eq_some h
+  have hp := List.find?_some h
+  simp only [Bool.and_eq_true, beq_iff_eq] at hp
+  exact ⟨hm, hp.1, hp.2⟩
+
+theorem attFind_none {att : List Att} {u v : Nat} (h : attFind att u v = none) :
+    ¬ ∃ t ∈ att, t.x = u ∧ t.link = v := by
+  unfold attFind at h
+  rw [List.find?_eq_none] at h
+  rintro ⟨t, ht, h1, h2⟩
+  have := h t ht
+  simp [h1, h2] at this
+
+/-- one step of `Center.convert_to`, attached centres included, adds the position of `a` relative to `b` -/
+theorem stepOffsetA_eq {ps : Pairs} {att : List Att} {seg : Nat → Nat → V6} {P : Nat → V6}
+    (hP : Consistent ps seg P) (hu : UniqueCenter ps) (hA : AttOK ps att P) {a b : Nat}
+    (h : LinkedA ps att a b) : stepOffsetA ps att seg a b = .ok (si (P a - P b)) := by
+  unfold stepOffsetA
+  by_cases h1 : (b, a) ∈ ps
+  · rw [if_pos (contains_iff.mpr h1)]; exact provide_eq hP hu h1
+  · have h1' : ¬ (ps.contains (b, a) = true) := fun hh => h1 (contains_iff.mp hh)
+    rw [if_neg h1']
+    cases hf : attFind att a b with
+    | some t =>
+      obtain ⟨ht, hx, hl⟩ := attFind_some hf
+      simp only
+      rw [propagate_linked hP (hA t ht).1, ← (hA t ht).2, hx, hl]
+    | none =>
+      simp only
+      by_cases h2 : (a, b) ∈ ps
+      · rw [if_pos (contains_iff.mpr h2), provide_eq hP hu h2]
+        simp only [negRes, vneg_eq, ← si_neg]; congr 2; abel
+      · have h2' : ¬ (ps.contains (a, b) = true) := fun hh => h2 (contains_iff.mp hh)
+        rw [if_neg h2']
+        cases hg : attFind att b a with
+        | some t =>
+          obtain ⟨ht, hx, hl⟩ := attFind_some hg
+          simp only
+          rw [propagate_linked hP (hA t ht).1, ← (hA t ht).2, hx, hl]
+          simp only [negRes, vneg_eq, ← si_neg]; congr 2; abel
+        | none =>
+          exfalso
+          rcases h with h | h | h
+          · rcases h with h | h
+            · exact h1 h
+            · exact h2 h
+          · exact attFind_none hf h
+          · exact attFind_none hg h
+
+theorem sumStepsA_eq {ps : Pairs} {att : List Att} {seg : Nat → Nat → V6} {P : Nat → V6}
+    (hP : Consistent ps seg P) (hu : UniqueCenter ps) (hA : AttOK ps att P) :
+    ∀ (rest : List Nat) (x : Nat) (acc : V6), (x :: rest).IsChain (LinkedA ps att) →
+      sumStepsA ps att seg acc (x :: rest) = .ok (acc + si (P x - P ((x :: rest).getLast (by simp)))) := by
+  intro rest
+  induction rest with
+  | nil => intro x acc _; simp [sumStepsA, si_zero]
+  | cons y r ih =>
+    intro x acc hc
+    have hxy : LinkedA ps att x y := by
+      cases hc with | cons_cons h _ => exact h
+    have hr : (y :: r).IsChain (LinkedA ps att) := by
+      cases hc with | cons_cons _ h => exact h
+    unfold sumStepsA
+    rw [stepOffsetA_eq hP hu hA hxy]
+    simp only
+    rw [ih y _ hr, vadd_eq]
+    congr 1
+    rw [List.getLast_cons (by simp : y :: r ≠ []), add_assoc, ← si_add]
+    congr 2; abel
+
+theorem linked_linkHistA (ps : Pairs) (att : List Att) (u v : Nat) :
+    C20.linked (linkHistA ps att) u v ↔ LinkedA ps att u v := by
+  unfold C20.linked linkHistA LinkedA
+  simp only [List.mem_append, List.mem_map, Prod.mk.injEq]
+  have hl := linked_linkHist ps u v
+  unfold C20.linked at hl
+  constructor
+  · rintro ((h | ⟨t, ht, h1, h2⟩) | (h | ⟨t, ht, h1, h2⟩))
+    · exact Or.inl (hl.mp (Or.inl h))
+    · exact Or.inr (Or.inl ⟨t, ht, h1, h2⟩)
+    · exact Or.inl (hl.mp (Or.inr h))
+    · exact Or.inr (Or.inr ⟨t, ht, h1, h2⟩)
+  · rintro (h | ⟨t, ht, h1, h2⟩ | ⟨t, ht, h1, h2⟩)
+    · rcases hl.mpr h with h | h
+      · exact Or.inl (Or.inl h)
+      · exact Or.inr (Or.inl h)
+    · exact Or.inl (Or.inr ⟨t, ht, h1, h2⟩)
+    · exact Or.inr (Or.inr ⟨t, ht, h1, h2⟩)
+
+/-- `Center.convert_to` with attached frames: whenever the routing returns a path, the result is the position of
+`a` relative to `b` -/
+theorem centerToA_ok {ps : Pairs} {att : List Att} {seg : Nat → Nat → V6} {P : Nat → V6}
+    (hP : Consistent ps seg P) (hu : UniqueCenter ps) (hA : AttOK ps att P) {fuel : Nat} {a b : Nat} {v : V6}
+    (h : centerToA fuel ps att seg a b = .ok v) : v = si (P a - P b) := by
+  unfold centerToA at h
+  cases hb : build fuel (linkHistA ps att) with
+  | none => rw [hb] at h; cases h
+  | some g =>
+    rw [hb] at h
+    simp only at h
+    cases hp : path fuel g a b with
+    | ok p =>
+      rw [hp] at h
+      simp only at h
+      obtain ⟨hh, hl, hc⟩ := C20.path_valid_chain fuel fuel (linkHistA ps att) g hb a b p hp
+      cases p with
+      | nil => simp at hh
+      | cons x rest =>
+        simp only [List.head?_cons, Option.some.injEq] at hh
+        subst hh
+        have hc' : (x :: rest).IsChain (LinkedA ps att) :=
+          List.IsChain.imp (fun u v h => (linked_linkHistA ps att u v).mp h) hc
+        rw [sumStepsA_eq hP hu hA rest x vzero hc', vzero_eq, zero_add] at h
+        have : (x :: rest).getLast (by simp) = b := by
+          have := List.getLast?_eq_some_getLast (l := x :: rest) (by simp)
+          rw [hl] at this
+          exact (Option.some.inj this).symm
+        rw [this] at h
+        exact (Res.ok.inj h).symm
+    | unknown => rw [hp] at h; cases h
+    | keyError => rw [hp] at h; cases h
+    | loop => rw [hp] at h; cases h
+
+/-- `Frame.transform` between any two frames, kernel bodies or attached ones -/
+theorem reframeA_ok {ps : Pairs} {att : List Att} {seg : Nat → Nat → V6} {P : Nat → V6}
+    (hP : Consistent ps seg P) (hu : UniqueCenter ps) (hA : AttOK ps att P) {fuel : Nat} {a b : Nat} {x v : V6}
+    (h : reframeA fuel ps att seg a b x = .ok v) : v = x + si (P a - P b) := by
+  unfold reframeA at h
+  split at h
+  · cases h
+  · split at h
+    · next hab => subst hab; cases h; simp [si_zero]
+    · cases hc : centerToA fuel ps att seg a b with
+      | ok off =>
+        rw [hc] at h; cases h
+        rw [centerToA_ok hP hu hA hc, vadd_eq]
+      | unknownBody => rw [hc] at h; cases h
+      | unknownFrame => rw [hc] at h; cases h
+      | noRoute => rw [hc] at h; cases h
+      | keyError => rw [hc] at h; cases h
+      | noProvider => rw [hc] at h; cases h
+      | fuel => rw [hc] at h; cases h
+
 end BeyondVerif.JplLemmas
